@@ -13,6 +13,7 @@ import (
 	"go.uber.org/zap"
 	"go.uber.org/zap/zapcore"
 
+	"verif/simsync"
 	"verif/zsim"
 )
 
@@ -516,6 +517,9 @@ type c10entry struct {
 
 func runC10(c *Ctx) {
 	g, f, r := c.G, c.F, c.R
+	simsync.SetPolicy(pick(g, simsync.PoolLIFO, simsync.PoolLIFO, simsync.PoolRandom), uint64(g.Draw(1<<16))+1, 0)
+	guardDone := guardOn(c)
+	defer guardDone()
 	nBranch := 1 + g.Weighted(2, 3, 2, 1)
 	var branches []*c10branch
 	var cores []zapcore.Core
